@@ -124,7 +124,8 @@ def transcribe(events):
             if len(waiting) > 2:
                 raise Skip("several readers wait to be read (the specification has room for one)")
             result.append({"ev": "open", "sid": sid, "kind": event["kind"], "mode": event.get("mode") or "raise",
-                           "until": -1 if event.get("until") is None else event["until"], "sizes": event["sizes"],
+                           # (TLC's integers have 32 bits: a limit beyond every row of any trace is written as one million)
+                           "until": -1 if event.get("until") is None else min(event["until"], 1000000), "sizes": event["sizes"],
                            "rows": rows})
             continue
         if sid != current:
